@@ -295,3 +295,52 @@ func (t *TinyLfu[K, V]) spec_EvictEntries() {
 	}))
 	ensures("caps", t.window.capacity == old(t.window.capacity) && t.slru.protected.capacity == old(t.slru.protected.capacity))
 }
+
+// ---- cost update ----------------------------------------------------------------------------------------------
+
+// accounting of a list whose member's weight was already changed by d but whose recorded size was not
+func op_acctP[K comparable, V any](l *List[K, V], d int64) bool {
+	return l.listType != WHEEL_LIST && l.count == card(l) && l.len+d == wsum(l)
+}
+
+func sp_acctPending[K comparable, V any](l *List[K, V], e *Entry[K, V], d int64) bool {
+	return imp(gh_po_in(l, e), op_acctP(l, d)) && imp(!gh_po_in(l, e), op_acct(l))
+}
+
+func sp_listInvNoAcct[K comparable, V any](l *List[K, V]) bool {
+	return l != nil && l.listType != WHEEL_LIST && sp_validType(l.listType) && sp_isRoot(l.root.flag.Flags) && op_ring(l) && op_flags(l)
+}
+
+// the cost of a tracked entry changed by weightChange; its policyWeight already holds the new cost
+// (documented protocol of sinkWrite), the region size and the total are brought up to date here
+func (t *TinyLfu[K, V]) spec_UpdateCost(entry *Entry[K, V], weightChange int64) {
+	flag("split_paths")
+	reveal("op_clean", "op_weights", "op_flags", "op_acct", "op_acctP")
+	requires("shape", sp_tlfuShape(t) && sp_listInvNoAcct(t.window) && sp_listInvNoAcct(t.slru.probation) && sp_listInvNoAcct(t.slru.protected))
+	requires("pending", sp_acctPending(t.window, entry, weightChange) && sp_acctPending(t.slru.probation, entry, weightChange) && sp_acctPending(t.slru.protected, entry, weightChange))
+	requires("rest", sp_totalInv(t) && op_clean(t) && sp_capInv(t) && op_weights(t) && sp_stepInv(t))
+	requires("tracked", entry != nil && sp_tracked(t, entry))
+	requires("sketch", sp_sketchInv(t.sketch) && t.hasher != nil)
+	ensures("inv", sp_policyInv(t))
+	ensures("fits", t.weightedSize <= t.capacity)
+	ensures("no_new", all(func(x *Entry[K, V]) bool {
+		return imp(sp_tracked(t, x), old(sp_tracked(t, x))) && x.policyWeight == old(x.policyWeight)
+	}))
+}
+
+// ---- insertion ---------------------------------------------------------------------------------------------------
+
+// a new entry enters the window; overflow is demoted / evicted until the policy fits
+func (t *TinyLfu[K, V]) spec_Set(entry *Entry[K, V]) {
+	flag("split_paths")
+	reveal("op_clean", "op_weights", "op_flags")
+	requires("inv", sp_policyInv(t))
+	requires("sketch", sp_sketchInv(t.sketch) && t.hasher != nil)
+	requires("entry", entry != nil && !sp_isRoot(entry.flag.Flags) && !sp_tracked(t, entry) && entry.policyWeight >= 0 && entry.policyWeight <= 1<<62)
+	ensures("inv", sp_policyInv(t))
+	ensures("fits", t.weightedSize <= t.capacity)
+	ensures("no_new", all(func(x *Entry[K, V]) bool {
+		return imp(sp_tracked(t, x) && x != entry, old(sp_tracked(t, x))) && x.policyWeight == old(x.policyWeight)
+	}))
+	ensures("sketch", sp_sketchInv(t.sketch))
+}
